@@ -160,7 +160,7 @@ def parse_operands(syms: List[str], types: List[str], first: int) -> Optional[Tu
         if s == "byte_reg":
             ops.append(Op("breg", f"in_r{n}", 1)); lab.append(False); i += 1
         elif s in ("word_reg", "seg_reg", "pop_reg"):
-            ops.append(Op("wreg", f"in_r{n}", 1)); lab.append(False); i += 1
+            ops.append(Op("wreg", f"in_r{n}", 1, "seg" if s == "seg_reg" else "")); lab.append(False); i += 1
         elif s == '"byte"' and i + 1 < len(syms) and syms[i + 1] == "memory_addr":
             ops.append(Op("bmem", "in_m", 2)); lab.append(False); i += 2
         elif s == '"word"' and i + 1 < len(syms) and syms[i + 1] == "memory_addr":
